@@ -3,14 +3,20 @@
 
   Full statement (for every streaming parser P and flags without the end-of-input modes):
      P b o st = (o', e, st') ∧ e ≠ MoreBytes  →  P (b ++ s) o st = (o', e, st')     for ALL b, s, o, st.
-  Proved here: skipCRLF, skipLWS (without POptInputEndF), ParseCallIDVal, ParseUIntVal (= ParseExpiresVal),
-  ParseCLenVal, SkipQuoted; and the generic theorem `runLoop_stable` every loop parser is an instance of.
-  NOT yet proved: ParseFLine, ParseHdrLine/ParseHeaders, ParseNameAddrPVal and the list parsers, ParseCSeqVal,
-  ParseTokenParam/URI lists, ParseSIPMsg (with its documented body-extent exemption).
+  Proved here: skipCRLF, skipLWS (without POptInputEndF), skipToken / skipLine scanners, ParseCallIDVal,
+  ParseUIntVal (= ParseExpiresVal), ParseCLenVal, SkipQuoted, ParseCSeqVal, ParseFLine, and
+  ParseNameAddrPVal for every header kind (= ParseFromVal, ParseOneContact; 33-state machine); and the
+  generic theorems `runLoop_stable` / `runLoop_stableI` every loop parser is an instance of.
+  The hypotheses `csOK` / `flOK` / `naOK` say that the object handed in is new, finished, or was returned by
+  an earlier call on a prefix of the buffer (saved positions lie inside the buffer) and, for ParseFLine, that
+  the buffer respects the documented 65,535-byte limit.
+  NOT yet proved: ParseHdrLine/ParseHeaders, the list parsers (ParseAll*), ParseTokenParam/URI lists,
+  ParseSIPMsg (with its documented body-extent exemption).
 -/
 import Sipsp.Proofs.CallID
 import Sipsp.Proofs.UInt
 import Sipsp.Proofs.SkipQuoted
+import Sipsp.Proofs.NameAddrL1b
 
 namespace Sipsp.C03
 open Sipsp
@@ -39,6 +45,23 @@ theorem stable_clen (b s : Buf) (o : Nat) (st : PUIntBody) {o' : Nat} {e : Err} 
 theorem stable_skipquoted (b s : Buf) (o : Nat) {o' : Nat} {e : Err}
     (h : skipQuoted b o = (o', e)) (he : e ≠ .moreBytes) : skipQuoted (b ++ s) o = (o', e) :=
   skipQuoted_stable b s o h he
+
+theorem stable_cseq (b s : Buf) (o : Nat) (st : PCSeqBody) (hok : csOK b o st) {o' : Nat} {e : Err}
+    {st' : PCSeqBody} (h : parseCSeqVal b o st = (o', e, st')) (he : e ≠ .moreBytes) :
+    parseCSeqVal (b ++ s) o st = (o', e, st') := parseCSeqVal_stable b s o st hok h he
+
+theorem stable_fline (b s : Buf) (o : Nat) (pl : PFLine) (hok : flOK pl) (hfit : b.size ≤ 65535)
+    {o' : Nat} {e : Err} {pl' : PFLine} (h : parseFLine b o pl = (o', e, pl')) (he : e ≠ .moreBytes) :
+    parseFLine (b ++ s) o pl = (o', e, pl') := parseFLine_stable b s o pl hok hfit h he
+
+theorem stable_nameaddr (t : Nat) (b s : Buf) (o : Nat) (pf : PFromBody) (hok : naOK b o pf)
+    {o' : Nat} {e : Err} {pf' : PFromBody} (h : parseNameAddrPVal t b o pf = (o', e, pf')) (he : e ≠ .moreBytes) :
+    parseNameAddrPVal t (b ++ s) o pf = (o', e, pf') := parseNameAddrPVal_stable t b s o pf hok h he
+
+/-- a new object satisfies the hypotheses -/
+theorem new_objects_ok (b : Buf) (o : Nat) (ho : o ≤ b.size) :
+    csOK b o {} ∧ flOK {} ∧ naOK b o {} := by
+  refine ⟨Or.inr ⟨ho, by simp, by simp⟩, by simp [flOK], Or.inr ⟨ho, by simp, by simp⟩⟩
 
 /-- the generic theorem: any loop parser whose steps are stable and whose end-of-buffer exit asks for more
     bytes has no premature verdict -/
